@@ -1,0 +1,7 @@
+//go:build !verif
+
+package shovel
+
+func verifEmit(name string, tm *Manager, t *Task) {}
+
+func verifPoint(name string, t *Task) {}
